@@ -135,6 +135,16 @@ def call_builtin(ex, name, args, kwargs, node):
     if name in ('collections.defaultdict', 'defaultdict', 'collections.OrderedDict', 'OrderedDict'):
         return V(TTuple([]), [])
     if name in ('typing.cast', 'cast'): return args[1]
+    if name == 're.compile':
+        from . import strlib
+        pat = ex.val(args[0]); flags = 0
+        if pat.ty not in (TStr, T.TBytes) or not z3.is_string_value(z3.simplify(pat.t)): raise Unsupported('re.compile of a non-constant pattern')
+        fl = list(args[1:]) + ([kwargs['flags']] if 'flags' in kwargs else [])
+        import re as _re
+        for f_ in fl:
+            if isinstance(f_, E.BuiltinRef) and f_.name.startswith('re.'): flags |= int(getattr(_re, f_.name[3:]))
+            else: raise Unsupported('regex flags')
+        return strlib.RegexV(strlib._unescape_z3(z3.simplify(pat.t).as_string()), flags, pat.ty is T.TBytes)
     if name == 'pickle.loads':
         # may fail with an arbitrary exception; otherwise the uninterpreted inverse of dumps
         if not ex.spec and ex.choose(2) == 1: ex.raise_exc('PickleError')     # some Exception subclass; named so that it cannot mask others
@@ -194,6 +204,11 @@ def _isinstance1(ex, obj, c):
         if isinstance(ty, TRef):
             return ex.vf.subclass_test(ex, obj, c)
         raise Unsupported('isinstance(%r, %s)' % (ty, c.name))
+    if isinstance(c, V) and isinstance(c.ty, TRef) and c.ty.universal and isinstance(ty, (TRef, TOpt)):
+        # class object known only as an opaque value: an uninterpreted relation between object and class
+        o = obj
+        if isinstance(ty, TOpt): return z3.And(z3.Not(obj.t[0]), _isinstance1(ex, obj.t[1], c))
+        return z3.Function('isinstance_dyn', sort_of(ty), sort_of(c.ty), z3.BoolSort())(o.t, c.t)
     raise Unsupported('isinstance class arg')
 
 def _is_strenum(ex, ty):
@@ -315,7 +330,23 @@ def _seq_of_set(ex, s):
 # ------------------------------------------------------------------ methods on builtin types
 def call_method_builtin(ex, bm, args, kwargs, node):
     recv, name = bm.recv, bm.name
+    from . import strlib
+    if isinstance(recv, strlib.RegexV):
+        s = ex.val(args[0])
+        if isinstance(s.ty, TOpt): s = ex.co(s, s.ty.inner)
+        matched, mv = strlib.regex_match(ex, recv, s, name.split('.')[1])
+        return V(T.TMatch, (matched, mv))
     ty = recv.ty
+    if ty is T.TMatch:
+        mv = recv.t[1]
+        if name == 'match.group':
+            if not ex.spec and ex.branch(z3.Not(recv.t[0]), exceptional=True): ex.raise_exc('AttributeError')
+            key = args[0] if args else vint(0)
+            k = const_key(ex, key)
+            if isinstance(k, str): k = mv.names.get(k)
+            if k is None or k not in mv.groups or mv.groups[k] is None: raise Unsupported('regex group %r' % (k,))
+            return mv.groups[k]
+        raise Unsupported(name)
     args = [a if isinstance(a, (E.IterV, E.PyObj)) else ex.val(a) for a in args]
     if name == '_replace' and isinstance(ty, TRec):
         vals = dict(recv.t)
@@ -346,11 +377,18 @@ def call_method_builtin(ex, bm, args, kwargs, node):
     if isinstance(ty, TOMap): return _omap_method(ex, bm, recv, name, args, kwargs)
     raise Unsupported('method %s on %r' % (name, ty))
 
+def const_key(ex, v):
+    v = ex.val(v); t = z3.simplify(v.t)
+    if v.ty is TStr and z3.is_string_value(t): return t.as_string()
+    if v.ty is TInt and z3.is_int_value(t): return t.as_long()
+    raise Unsupported('non-constant group key')
+
 def _str_method(ex, s, name, args, kwargs):
     t = s.t
     if name == 'replace':
         a, b = args[0], args[1]
-        return V(TStr, str_replace_all(ex, t, a.t, b.t))
+        from . import strlib
+        return V(TStr, strlib.smart_replace(ex, t, a.t, b.t))
     if name == 'startswith':
         if isinstance(args[0].ty, TTuple): return vbool(z3.Or(*[z3.PrefixOf(x.t, t) for x in args[0].t]))
         return vbool(z3.PrefixOf(args[0].t, t))
